@@ -407,8 +407,19 @@ impl Storm {
             }
             94 => {
                 // anybody may refresh an account's health cache: the program's own three valuations
-                let i = ix::pulse_health(w.accts[a].key, w.risk_metas(a, None, None));
-                w.exec(m, &[i], &[]).await
+                // ... or a bank's cached price (a permissionless instruction that writes to the bank
+                // account: whatever it is given, it may only move the cache)
+                if self.r.gen_bool(0.35) {
+                    let g = if w.groups.len() > 1 && self.r.gen_bool(0.15) { (w.banks[b].group + 1) % w.groups.len() } else { w.banks[b].group };
+                    let rem: Vec<_> = w.bank_risk_metas(b).into_iter().skip(1).collect();
+                    let i = ix::pulse_bank_price(w.groups[g].key, w.banks[b].key, rem);
+                    let o = w.exec(m, &[i], &[]).await;
+                    m.r.count(if o.ok() { "storm.bank_price_pulses_accepted" } else { "storm.bank_price_pulses_refused" });
+                    o
+                } else {
+                    let i = ix::pulse_health(w.accts[a].key, w.risk_metas(a, None, None));
+                    w.exec(m, &[i], &[]).await
+                }
             }
             95..=96 => self.try_bankruptcy(w, m, a).await,
             97 => self.account_lifecycle(w, m, a).await,
